@@ -98,3 +98,10 @@ CLAIMED['C10'] = dict(
   text='Sidecar inbound and EDS legs held on every (workload, port) triple of every policy set executed (hundreds of sets quick, ~20k thorough; all five deciding levels and hundreds of precedence paths exercised; exhaustive stratum over modes per level). The ambient leg and the CDS best-effort inference disagree with the reference in the listed known-finding families (three named strata, empty-selector namespaces, equal-age ties, namespace-wide DISABLE); any ambient disagreement outside those strata keeps its full precedence path in the key and is reported.',
   note='Trusted: the reference precedence function (oldest wins, name as documented tie-break), the filter-chain matcher, the workloadapi Authorization interpreter, the assumption that ztunnel ignores a referenced policy that was never sent. Worlds are static (no policy update after start). Not generated: gateways/waypoints, DestinationRule TLS, WorkloadEntry workloads, root-namespace policies with selectors.',
 )
+
+CLAIMED['C11'] = dict(
+  category='exploration',
+  technique='runtime monitoring: the real DiscoveryServer (identity check on, harness authenticator, SubjectAccessReview reactor, real kube secrets with real key pairs, Istio Gateways and Gateway-API certificateRefs with ReferenceGrants) is driven over the in-process stream shim by differently privileged SotW and delta clients requesting overlapping SDS names in PRNG orders against the shared cache; every response of every type is scanned for needles of every private key; a reference entitlement function and a reference identity-binding rule decide; the same plan in two orders must give the same per-proxy answers',
+  text='Held on every stream and every response observed: hundreds (quick) / thousands (thorough) of orderings, thousands of streams across 111 credential/claim classes, all six legitimate release grounds exercised (so the positive path is real), tens of thousands of secrets with key material inspected, thousands of responses for names cached by another stream. 11 seeded mutants in sds.go, auth.go, credentials/kube and model/gateway.go are caught.',
+  note='Trusted: the reference entitlement function (our reading of the property; CA-only secrets not asserted), needle-based key detection (key material without a known needle => inconclusive), the harness authenticator and SAR table. Not explored: multi-cluster credentials, ListenerSets, caCertCredentialName, ECDS pull secrets, requests racing with pushes.',
+)
